@@ -355,7 +355,7 @@ static void gen_item(Gen &g, TN &n, bool sect, size_t sib)
 	n.sect = sect; n.quote = 0;
 	const std::vector<const char *> &names = sect ? g.sn : g.on;
 	n.name = names[(sib + g.pick(names.size())) % names.size()];
-	if (!sect) { if (n.name.empty()) { set_value(g.f, n, 0); if (g.f.style != '*' && g.pick(2)) n.quote = 3; } else set_value(g.f, n, g.vals[g.pick(g.vals.size())]); }
+	if (!sect) { if (n.name.empty()) { set_value(g.f, n, 0); if (g.f.style != '*' && g.x.choose(2)) n.quote = 3; } else set_value(g.f, n, g.vals[g.pick(g.vals.size())]); }
 }
 static void gen_list(Gen &g, std::vector<TN> &out, int depth)
 {
